@@ -282,3 +282,168 @@ Proof.
   apply otm_eqb_eq in Hv as [t [H1 H2]]. exists (iP t). rewrite He, !lookup_mv, H1, H2. split; reflexivity.
 Qed.
 End Interp.
+
+(* ------------------------------------------------------------------------------------------------ bounded sweep *)
+(* every DAG with at most 5 nodes, every fan-in order, every set of single-parent offline nodes: get_offline_subgraphs
+   terminates and, on the supported class, its staging is valid *)
+Lemma staging_sweep_5 : forallb all_okb [1; 2; 3; 4; 5] = true.
+Proof. vm_compute. reflexivity. Qed.
+
+Lemma staging_valid_bounded n es off :
+  1 <= n <= 5 -> In es (edge_lists n) -> In off (labellings n es) ->
+  let g := mkG (seq 0 n) es off in
+  exists stg, get_offline_subgraphs g = Some stg /\
+              (supportedb g stg = true ->
+               valid_stagingb g (filter (is_input g) (g_nodes g)) (filter (offline g) (g_nodes g)) stg = true).
+Proof.
+  intros Hn Hes Hoff g.
+  assert (Hall : all_okb n = true).
+  { pose proof staging_sweep_5 as H. rewrite forallb_forall in H. apply H. simpl. lia. }
+  unfold all_okb in Hall. rewrite forallb_forall in Hall. specialize (Hall es Hes).
+  rewrite forallb_forall in Hall. specialize (Hall off Hoff). fold g in Hall. unfold staging_okb in Hall.
+  destruct (get_offline_subgraphs g) as [stg|]; [|discriminate].
+  exists stg. split; [reflexivity|]. intros Hs. rewrite Hs in Hall. exact Hall.
+Qed.
+
+(* ------------------------------------------------------------------------------------------------ Model.train *)
+Section TrainProofs.
+Variables V NS : Type.
+Variable vcat : list V -> V.
+Variable ncall : nat -> NS -> V -> NS.
+Variable nout : nat -> NS -> V.
+Variable nlearn : nat -> NS -> V -> V -> NS.
+Notation tmodel := (tmodel).
+Notation tenv := (tenv NS).
+Notation tforward := (tforward V NS vcat ncall nout).
+Notation ttrain_nodes := (ttrain_nodes V NS vcat nout nlearn).
+Notation ttrain_from := (ttrain_from V NS vcat ncall nout nlearn).
+Notation tgather := (tgather V NS vcat nout).
+
+(* one step of Model.train: forward; the returned states are those of the forward pass (pre-update); the update
+   happens iff  i mod learn_every = 0  (or the sequence has a single step) *)
+Lemma train_step_spec (m : tmodel) k single i (e : tenv) ext tgt rest :
+  ttrain_from m k single i e ((ext, tgt) :: rest) =
+    let e1 := tforward m ext e in
+    let e2 := if (i mod k =? 0) || single then ttrain_nodes m ext tgt e1 else e1 in
+    let '(e3, os) := ttrain_from m k single (S i) e2 rest in
+    (e3, map (fun o => nout o (e1 o)) (t_outs m) :: os).
+Proof. reflexivity. Qed.
+
+Lemma train_outputs_length (m : tmodel) k single : forall steps i (e : tenv),
+  length (snd (ttrain_from m k single i e steps)) = length steps.
+Proof.
+  induction steps as [|[ext tgt] rest IH]; intros i e; [reflexivity|].
+  rewrite train_step_spec. cbv zeta.
+  match goal with |- context [ttrain_from m k single (S i) ?E rest] => specialize (IH (S i) E);
+    destruct (ttrain_from m k single (S i) E rest) as [e3 os] end.
+  simpl in *. rewrite IH. reflexivity.
+Qed.
+
+(* nodes that are not online are not touched by the training pass *)
+Lemma ttrain_nodes_skip (m : tmodel) ext tgt : forall l (e : tenv),
+  (forall v, In v l -> t_online m v = false) ->
+  fold_left (fun e v => if t_online m v
+                        then match tgt v with
+                             | Some y => tupd NS e v (nlearn v (e v) (tgather m e ext v) y)
+                             | None => e
+                             end
+                        else e) l e = e.
+Proof.
+  induction l as [|a l IH]; intros e Hl; [reflexivity|]. simpl. rewrite (Hl a (or_introl eq_refl)).
+  apply IH. intros v Hv. apply Hl. right. exact Hv.
+Qed.
+
+Lemma tgather_ext (m : tmodel) (e e' : tenv) ext v :
+  (forall p, In p (t_parents m v) -> e p = e' p) -> tgather m e ext v = tgather m e' ext v.
+Proof.
+  intros Hp. unfold FitSem.tgather. f_equal. f_equal. apply map_ext_in. intros p Hin. rewrite (Hp p Hin). reflexivity.
+Qed.
+
+Lemma tupd_other (e : tenv) n s p : p <> n -> tupd NS e n s p = e p.
+Proof. intros Hne. unfold tupd. destruct (p =? n) eqn:E; [apply Nat.eqb_eq in E; contradiction|reflexivity]. Qed.
+
+(* a model made of upstream nodes followed by ONE online readout r: Model.train is the explicit per-timestep loop
+   "call the upstream nodes, call the readout, then readout.train(x_t, y_t, call=False) on the selected steps" *)
+Theorem train_is_explicit_loop (m : tmodel) (ups : list nat) (r : nat) k single :
+  t_order m = ups ++ [r] -> t_outs m = [r] -> t_online m r = true ->
+  (forall v, In v ups -> t_online m v = false) -> ~ In r (t_parents m r) ->
+  forall steps i (e : tenv),
+    ttrain_from m k single i e steps =
+      let '(e', ps) := explicit_train_from V NS vcat ncall nout nlearn ups r m k single i e steps in
+      (e', map (fun p => [p]) ps).
+Proof.
+  intros Hord Houts Hon Hoff Hself. induction steps as [|[ext tgt] rest IH]; intros i e; [reflexivity|].
+  rewrite train_step_spec. cbv zeta. simpl explicit_train_from. unfold explicit_train_step.
+  set (e1 := fold_left (fun e v => tupd NS e v (ncall v (e v) (tgather m e ext v))) ups e).
+  set (x := tgather m e1 ext r).
+  set (e2 := tupd NS e1 r (ncall r (e1 r) x)).
+  assert (Hfw : tforward m ext e = e2).
+  { unfold FitSem.tforward. rewrite Hord, fold_left_app. reflexivity. }
+  rewrite Hfw, Houts. simpl map.
+  assert (Hx : tgather m e2 ext r = x).
+  { apply tgather_ext. intros p Hp. apply tupd_other. intros ->. exact (Hself Hp). }
+  assert (Htr : ttrain_nodes m ext tgt e2 = match tgt r with Some y => tupd NS e2 r (nlearn r (e2 r) x y) | None => e2 end).
+  { unfold FitSem.ttrain_nodes. rewrite Hord, fold_left_app, (ttrain_nodes_skip m ext tgt ups e2 Hoff).
+    simpl. rewrite Hon, Hx. reflexivity. }
+  rewrite Htr. unfold tgate.
+  destruct ((i mod k =? 0) || single);
+    rewrite IH;
+    match goal with |- context [explicit_train_from V NS vcat ncall nout nlearn ups r m k single (S i) ?E rest] =>
+      destruct (explicit_train_from V NS vcat ncall nout nlearn ups r m k single (S i) E rest) as [e' ps] end;
+    reflexivity.
+Qed.
+End TrainProofs.
+
+(* ------------------------------------------------------------------------------------------------ witnesses *)
+(* (A) an output readout trained in an early stage never receives its inputs: Model.fit raises *)
+Definition g_early_output : graph := mkG [0; 1; 2; 3] [(0, 1); (0, 2); (2, 3)] [1; 2; 3].
+(* (B) res >> rd1, [res, rd1] >> Concat >> rd2: the Concat sees (rd1, res) during fit but (res, rd1) at run time *)
+Definition g_cross_concat : graph := mkG [0; 1; 2; 3] [(0, 1); (0, 2); (1, 2); (2, 3)] [1; 3].
+(* (C) [inp, res, rd1] >> Concat >> rd2 with inp >> res >> rd1: two relations write the Concat's entry *)
+Definition g_multi_source : graph := mkG [0; 1; 2; 3; 4] [(0, 1); (1, 2); (0, 3); (1, 3); (2, 3); (3, 4)] [2; 4].
+(* (D) a readout fed directly by the data next to a non-empty forward part: it never receives its inputs *)
+Definition g_entry_readout : graph := mkG [0; 1; 2] [(1, 2)] [0; 2].
+
+Lemma staging_invalid_witnesses :
+  Forall (fun g => get_offline_subgraphs g <> None /\ default_valid g = false)
+         [g_early_output; g_cross_concat; g_multi_source; g_entry_readout].
+Proof. repeat constructor; try (vm_compute; discriminate); vm_compute; reflexivity. Qed.
+
+Definition sym_fit (g : graph) : option (list (nat * tm)) :=
+  match get_offline_subgraphs g with
+  | Some stg => fit_with_staging tm tm s_run s_fit s_pred g (sym_X (filter (is_input g) (g_nodes g)))
+                                 (sym_Y (filter (offline g) (g_nodes g))) stg
+  | None => None
+  end.
+(* what goes wrong: (A), (C), (D) raise; (B) trains rd2 on the columns in the wrong order *)
+Lemma staging_failure_modes :
+  sym_fit g_early_output = None /\ sym_fit g_multi_source = None /\ sym_fit g_entry_readout = None /\
+  (exists ps, sym_fit g_cross_concat = Some ps /\
+     lookup ps 3 = Some (s_fit 3 [s_run 2 [s_pred 1 (s_fit 1 [s_run 0 [TExt 0]] (TTgt 1)) [s_run 0 [TExt 0]]; s_run 0 [TExt 0]]] (TTgt 3)) /\
+     lookup (explicit_fit tm tm s_run s_fit s_pred g_cross_concat (sym_X [0]) (sym_Y [1; 3])) 3 =
+       Some (s_fit 3 [s_run 2 [s_run 0 [TExt 0]; s_pred 1 (s_fit 1 [s_run 0 [TExt 0]] (TTgt 1)) [s_run 0 [TExt 0]]]] (TTgt 3))).
+Proof. repeat split; try (vm_compute; reflexivity). eexists. repeat split; vm_compute; reflexivity. Qed.
+
+(* pre-fix gate: with X a one-key mapping, len(X) == 1 holds whatever the number of timesteps, so every step updates *)
+Definition cnt_model : tmodel := mkTM [0] (fun _ => []) (fun v => v =? 0) [0].
+Definition cnt_steps : list ((nat -> option nat) * (nat -> option nat)) :=
+  repeat (fun _ => Some 0, fun _ => Some 0) 4.
+(* node state = number of learning updates so far *)
+Definition cnt_updates (prefix : bool) : nat :=
+  let run := if prefix
+             then model_train_prefix nat nat (fun _ => 0) (fun _ s _ => s) (fun _ s => s) (fun _ s _ _ => S s) cnt_model 2 1
+             else model_train nat nat (fun _ => 0) (fun _ s _ => s) (fun _ s => s) (fun _ s _ _ => S s) cnt_model 2 in
+  fst (run (fun _ => 0) cnt_steps) 0.
+Lemma learn_every_mapping_prefix_witness : cnt_updates false = 2 /\ cnt_updates true = 4.
+Proof. split; vm_compute; reflexivity. Qed.
+
+(* ------------------------------------------------------------------------------------------------ array = mapping *)
+(* to_data_mapping: an array X (resp. Y) IS the mapping giving it to every input (resp. trainable) node, so both ways
+   of passing the data reach Model.fit / the explicit procedure as the same mappings *)
+Lemma array_eq_mapping {D} (g : graph) (trainable : list nat) (x y : D) :
+  input_mapping g (DArray x) = input_mapping g (DMapping (map (fun n => (n, x)) (filter (is_input g) (g_nodes g)))) /\
+  target_mapping trainable (DArray y) = target_mapping trainable (DMapping (map (fun n => (n, y)) trainable)).
+Proof. split; reflexivity. Qed.
+Lemma array_mapping_keys {D} (g : graph) (x : D) :
+  map fst (input_mapping g (DArray x)) = filter (is_input g) (g_nodes g).
+Proof. simpl. rewrite map_map. simpl. apply map_id. Qed.
